@@ -736,6 +736,9 @@ var pathRepl = strings.NewReplacer(
 func shortenPaths(s string) string { return pathRepl.Replace(s) }
 
 func inRepo(fn *ssa.Function) bool {
+	if fn.Pkg == nil && fn.Origin() != nil && fn.Origin() != fn {
+		return inRepo(fn.Origin()) // instantiation of a generic function of the repository
+	}
 	if fn.Pkg == nil {
 		if fn.Parent() != nil {
 			return inRepo(fn.Parent())
